@@ -13,6 +13,13 @@ pieces of each former region pairwise disjoint and adding up to its area (tiling
 regions and the die untouched (same objects, same values); grid count and tiling; the observers are pure (reading
 `floorplanning_rectangles()` / the region lists 0, 1 or 2 times before the refinement and twice after it never changes the
 die, and the tiling clauses refer to the snapshot taken before any call).
+
+SESSIONS (ops `cgrid` / `session` of `drv_die`): the model is given only the DOCUMENTS (die source, netlist document) and a list of
+method calls; it constructs the die itself (`FV/Model/DieNet.lean`: netlist reader, fixed rectangles, tolerance; the observed
+ground-region order is the pick trace) and then performs the calls on the constructed object (`FV/Model/DieObj.lean`: `step`,
+`run`; a raised exception leaves the object unchanged and the session continues).  Every intermediate object is compared; in the
+exact stream the model runs `split_rectangles` with the fuel `fuelQ` that `FV.C11.splitQ_returns` proves sufficient.  Dies
+without any refinable region are included (`IndexError`, as the code does: `FV.C11.dieSplit_no_refinable`).
 """
 from __future__ import annotations
 
@@ -26,9 +33,10 @@ from geo import sc, bb, rect_dict
 from frame.geometry.geometry import Rectangle, split_rectangles
 from frame.die.die import Die
 from frame.netlist.netlist import Netlist
+from props import c01 as c01h
 
 LEVEL = "proof"
-DRIVERS = ["drv_stog"]
+DRIVERS = ["drv_stog", "drv_die"]
 TRUSTED = [
     "Lean 4.33 kernel; Mathlib lemmas; axioms ⊆ {propext, Classical.choice, Quot.sound}",
     "hand-written model FV/Model/SplitRects.lean (+ FV/Model/Geom.lean), including the transcription of CPython's heapq "
@@ -37,8 +45,9 @@ TRUSTED = [
     "the while loops are modelled with fuel; FV.C11.split_terminates proves a finite fuel suffices (given a bound 2^K·r on "
     "the aspect ratios of the inputs — automatic in Archimedean fields, FV.C11.exists_aspect_bound) and FV.C11.fuel_irrelevant "
     "that the result does not depend on it",
-    "construction of the Die (ground-region computation, C01) is not part of this model: the die state is read from the "
-    "implementation just before the refinement call",
+    "single-call streams: the die state is read from the implementation just before the refinement call; session stream: the "
+    "die is constructed by the model from the die / netlist documents (C01 model; the observed ground-region order is the pick trace)",
+    "at ℚ (exact stream of the sessions) the fuel is computed (`fuelQ`) and proved sufficient; at Float a fixed fuel of 4e6 is used",
     "theorems are over exact ordered fields; IEEE rounding is executed (F stream), never proved",
     "harness (Python) and compiled Lean driver: parsing, canonicalisation, comparison",
 ]
@@ -486,6 +495,182 @@ def grid_case(ctx: Ctx, mode, dy, ny, nr, nc, reqs, todo, obs: int = 0) -> None:
     ctx.count("op:initgrid")
 
 
+# ------------------------------------------------------------------ sessions on a die constructed from its documents
+def gen_calls(rng, mode, nmax=24):
+    calls = []
+    for _ in range(rng.choice([1, 2, 2, 3])):
+        if rng.random() < 0.7:
+            ratio = rng.choice(Q_RATIOS if mode == "Q" else F_RATIOS)
+            n = rng.choice([1, 2, 3, 4, 5, 7, 8, 13, nmax, rng.randint(1, nmax)])
+            if rng.random() < 0.05:
+                ratio, n = rng.choice([(1.25, n), (ratio, 0)])
+            calls.append(["s", ratio, n])
+        else:
+            # exact stream: powers of two only (w / 3 is not a dyadic number: the float run and the exact model then order
+            # equal areas differently)
+            dims = [0, 1, 1, 2, 2, 4] if mode == "Q" else [0, 1, 1, 2, 2, 3]
+            calls.append(["g", rng.choice(dims), rng.choice(dims[1:])])
+    return calls
+
+
+BLOCKED_DIES = [
+    ("width: 4.0\nheight: 2.0\nregions: [2.0, 1.0, 4.0, 2.0, '#']\n", None),
+    ("width: 4.0\nheight: 2.0\nregions: [[1.0, 1.0, 2.0, 2.0, '#'], [3.0, 1.0, 2.0, 2.0, '#']]\n", None),
+    ("width: 4.0\nheight: 2.0\nregions: [[1.0, 1.0, 2.0, 2.0, '#']]\n",
+     "Modules: {F0: {fixed: true, rectangles: [[3.0, 1.0, 2.0, 2.0]]}}\nNets: []\n"),
+    ("4.0x2.0", "Modules: {F0: {fixed: true, rectangles: [[1.0, 1.0, 2.0, 2.0], [3.0, 1.0, 2.0, 2.0]]}, S: {area: 3}}\nNets: [[F0, S]]\n"),
+]
+
+
+def session_run(ctx: Ctx, mode, dy, ny, calls, kind="str"):
+    """construct the die (implementation), perform the calls, judge every call exactly; returns what is needed for the model."""
+    case = {"mode": mode, "doc": dy, "netlist": ny, "pre": None, "family": "session", "shape": "session", "kind": "valid",
+            "size": 0, "exact": None, "as": kind}
+    try:
+        run = c01h.Run(case)
+    except c01h.Unserialisable:
+        return None
+    if run.die is None:
+        ctx.count("die:rejected-by-constructor:" + str(run.impl))
+        return None
+    d = run.die
+    inp = {"op": "session", "mode": mode, "die": dy, "netlist": ny, "calls": calls, "as": kind, "size": len(calls)}
+    c01h.set_state(list(run.st1) if run.st1 else None)
+    results = []
+    try:
+        st0 = die_state(d)
+        run.head_line0, run.ground0 = run.impl_line(), list(d.ground_regions)     # the object as constructed
+        size = inp["size"] = len(calls) + len(st0["specialized"]) + len(st0["ground"])
+        blk, fx, box = list(d.blockages), list(d.fixed_regions), d.bounding_box
+        orig = st0["specialized"] + st0["ground"]
+        any_grid = False
+        for k, call in enumerate(calls):
+            pre = die_state(d)
+            ins = pre["specialized"] + pre["ground"]
+            where = f"call {k + 1} of the session"
+            try:
+                if call[0] == "s":
+                    d.split_refinable_regions(call[1], call[2])
+                else:
+                    d.initial_grid(call[1], call[2])
+                post = die_state(d)
+                res = "ok " + die_out(post, mode)
+            except AssertionError:
+                res, post = "err:Assert", None
+            except IndexError:
+                res, post = "err:IndexError", None
+            except Exception as ex:
+                res, post = "err:" + type(ex).__name__, None
+            results.append(res)
+            if post is None:
+                if die_state(d) != pre:
+                    ctx.spec_fail("session:exception-leaves-die-unchanged", inp, {"where": where, "raised": res}, size)
+                if call[0] == "s":
+                    admissible = call[2] >= 1 and call[1] > 1.415
+                    # IndexError is what the code does on a die without refinable region — and only there
+                    expected = "err:IndexError" if (admissible and not ins) else "err:Assert" if not admissible else None
+                else:
+                    clean = not pre["specialized"] and not pre["blockages"] and not pre["fixed"] and len(pre["ground"]) == 1
+                    ok_args = call[1] > 0 and call[2] > 0 and call[1] + call[2] > 1
+                    expected = None if (clean and ok_args) else "err:Assert"
+                if res != expected:
+                    ctx.spec_fail("operation-raised", inp, {"raised": res, "where": where}, size)
+                continue
+            outs = post["specialized"] + post["ground"]
+            if any(r["region"] == "_" for r in post["specialized"]) or any(r["region"] != "_" for r in post["ground"]):
+                ctx.spec_fail("dieSplit_partition", inp, {"where": where}, size)
+            if call[0] == "s":
+                if not (call[2] >= 1 and call[1] > 1.415 and ins):
+                    ctx.spec_fail("session:inadmissible-call-returned", inp, {"where": where}, size)
+                else:
+                    spec_split(ctx, inp, mode if not any_grid else "F", ins, outs, call[1], call[2], clause_prefix="session:")
+            else:
+                any_grid = True
+                clean = not pre["specialized"] and not pre["blockages"] and not pre["fixed"] and len(pre["ground"]) == 1
+                if not clean or not (call[1] > 0 and call[2] > 0 and call[1] + call[2] > 1):
+                    ctx.spec_fail("initialGrid_requires-clean-die", inp, {"where": where}, size)
+                elif len(outs) != call[1] * call[2]:
+                    ctx.spec_fail("initialGrid_count", inp, {"returned": len(outs), "where": where}, size)
+                else:
+                    spec_split(ctx, inp, "F", ins, outs, 10 ** 9, call[1] * call[2], clause_prefix="session:initialGrid_tiles:")
+        # session-level clauses (FV.C11.session_invariant): untouched, pieces of the ORIGINAL regions, same refinable area
+        same_objects(ctx, inp, "session_untouched:blockages", blk, st0["blockages"], d.blockages, size)
+        same_objects(ctx, inp, "session_untouched:fixed", fx, st0["fixed"], d.fixed_regions, size)
+        same_objects(ctx, inp, "session_untouched:fixed", fx, st0["fixed"], d.floorplanning_rectangles()[1], size)
+        same_objects(ctx, inp, "session_untouched:die", [box], [st0["die"]], [d.bounding_box], size)
+        final = die_state(d)
+        fin = final["specialized"] + final["ground"]
+        if orig and fin:
+            spec_split(ctx, inp, mode if not any_grid else "F", orig, fin, 10 ** 9, 1, clause_prefix="session_invariant:")
+        elif bool(orig) != bool(fin):
+            ctx.spec_fail("session_invariant:refinable-area", inp, {"before": len(orig), "after": len(fin)}, size)
+    finally:
+        Rectangle.undefine_epsilon()
+    ctx.case(mode, ("session", dy, ny, str(calls), kind), True,
+             sample={"op": "session", "mode": mode, "die": dy, "netlist": ny, "calls": calls, "results": [r[:40] for r in results]})
+    ctx.count("op:session")
+    ctx.count("session:calls=%d" % len(calls))
+    for r in results:
+        ctx.count("session:result:" + (r if r.startswith("err") else "ok"))
+    if not orig:
+        ctx.count("session:die-without-refinable-region")
+    if st0["fixed"]:
+        ctx.count("session:die-with-netlist-fixed-regions")
+    return run, inp, results
+
+
+def sessions(ctx: Ctx, items) -> None:
+    """items: (mode, die text, netlist text, calls, kind)."""
+    done = []
+    for (mode, dy, ny, calls, kind) in items:
+        r = session_run(ctx, mode, dy, ny, calls, kind)
+        if r is not None:
+            done.append(r)
+    if not done:
+        return
+    grids = ctx.model([f"{inp['mode']} cgrid {run.head2}" for run, inp, _ in done], exe="drv_die")
+    if grids is None:
+        ctx.notes.append("model driver drv_die unavailable: sessions not compared")
+        return
+    reqs = []
+    for (run, inp, _), g in zip(done, grids):
+        mode = inp["mode"]
+        p = c01h.picks_from(run, g, run.ground0)
+        call_toks = " ".join(f"s {sc(c[1], mode)} {c[2]}" if c[0] == "s" else f"g {c[1]} {c[2]}" for c in inp["calls"])
+        reqs.append(f"{mode} session {run.head2} " + ("-" if p is None else "P " + p) + f" {len(inp['calls'])} " + call_toks)
+    replies = ctx.model(reqs, exe="drv_die")
+    for (run, inp, results), rep, req in zip(done, replies, reqs):
+        mode = inp["mode"]
+        parts = rep.split(" ;; ")
+        head, steps = parts[0], parts[1:]
+        impl_head = run.head_line0
+        ok, exact = c01h.close_lines(impl_head, " ; ".join(head.split(" ; ")[:5]), mode, 0.0 if mode == "Q" else 1e-9)
+        if not ok:
+            ctx.disagree("session:constructor", inp, impl_head[:1500], head[:1500], size=inp["size"])
+            continue
+        if len(steps) != len(results):
+            ctx.disagree("session", inp, results, steps, size=inp["size"])
+            continue
+        for k, (a, b) in enumerate(zip(results, steps)):
+            if a == b:
+                continue
+            if mode == "Q" and any(x[0] == "g" and any(v & (v - 1) for v in x[1:] if v > 0) for x in inp["calls"][:k]):
+                ctx.count("session:not-compared-after-inexact-grid")
+                break
+            ia, ib = (a[3:] if a.startswith("ok ") else a), (b[3:] if b.startswith("ok ") else b)
+            if a.startswith("ok ") == b.startswith("ok ") and a.startswith("ok "):
+                c = inp["calls"][k]
+                if c[0] == "g" and close_lists(ia, ib, mode, ordered=True):
+                    ctx.drift += 1          # w / ncols is inexact even on dyadic dies
+                    continue
+                if (mode == "F" or any(x[0] == "g" for x in inp["calls"][:k])) and close_lists(ia, ib, "F" if mode == "F" else mode):
+                    ctx.drift += 1
+                    break                   # same regions, rounding-dependent order: later calls are not compared
+            ctx.disagree("session", dict(inp, call=k + 1), a[:1500], b[:1500], size=inp["size"])
+            break
+
+
+
 # ------------------------------------------------------------------ driver
 def pick(rng, mode, nmax):
     ratio = rng.choice(Q_RATIOS if mode == "Q" else F_RATIOS)
@@ -507,7 +692,9 @@ def run(ctx: Ctx) -> None:
                 "Die.split_refinable_regions, observed through floorplanning_rectangles / blockages / fixed_regions, with a HISTORY: the observers are read 0, 1 or 2 times before the refinement and twice after it (purity clause: an observation never changes the die, two reads agree; the tiling refers to the snapshot taken before any call); Die.initial_grid "
                 "with 0..6 rows / columns on clean and non-clean dies; random heapq scripts with keys in -4..4.  Non-trivial = admissible "
                 "arguments (n ≥ 1, r > 1.415, at least one refinable region)")
-    ctx.assumptions.append("at least one refinable region (an empty list makes heappop raise IndexError; modelled, excluded from the theorems)")
+    ctx.assumptions.append("a die without refinable region makes split_refinable_regions raise IndexError (heappop on the empty heap): modelled, "
+                           "proved (FV.C11.dieSplit_no_refinable) and exercised by the session stream; the tiling / count / aspect clauses are "
+                           "about dies with at least one refinable region")
     rng = ctx.rng
     reqs, todo = [], []
     nmax = 64 if ctx.tier == "quick" else 300
@@ -546,6 +733,25 @@ def run(ctx: Ctx) -> None:
                   obs=rng.choice([0, 1, 1, 2]))
     for _ in range(_n(ctx, 2000, 40000)):
         heap_case(ctx, gen_heap_script(rng), reqs, todo)
+    # sessions on dies constructed by the model from the documents
+    items = []
+    for (dy, ny) in BLOCKED_DIES:
+        items.append(("Q", dy, ny, [["s", 2.0, 3], ["g", 2, 2], ["s", 1.5, 1]], "str"))
+    items.append(("Q", "4.0x4.0", None, [["s", 1.5, 2], ["g", 2, 2], ["s", 2.0, 9]], "str"))
+    items.append(("Q", "4.0x2.0", None, [["g", 2, 3], ["s", 1.5, 8], ["g", 1, 2]], "str"))
+    items.append(("Q", "width: 4.0\nheight: 2.0\n", None, [["g", 2, 2], ["s", 3.0, 7]], "tree"))
+    for i in range(_n(ctx, 450, 4000)):
+        mode = "Q" if i % 4 != 3 else "F"
+        if rng.random() < 0.2:
+            u = 0.25 if mode == "Q" else 0.1
+            dy, ny = f"width: {rng.randint(1, 40) * u!r}\nheight: {rng.randint(1, 40) * u!r}\n", None
+            if rng.random() < 0.4:
+                dy = f"{rng.randint(1, 40) * u!r}x{rng.randint(1, 40) * u!r}"
+        else:
+            dy, ny = gen_die_yaml(rng, mode)
+        kind = "tree" if (": " in dy and rng.random() < 0.15) else "str"
+        items.append((mode, dy, ny, gen_calls(rng, mode, 24 if ctx.tier == "quick" else 64), kind))
+    sessions(ctx, items)
     replies = ctx.model(reqs)
     if replies is None:
         ctx.notes.append("model driver unavailable: correspondence not run")
@@ -563,6 +769,8 @@ def _replay_one(ctx, inp, reqs, todo) -> None:
         grid_case(ctx, inp["mode"], inp["die"], inp["netlist"], inp["nrows"], inp["ncols"], reqs, todo, obs=inp.get("obs_before", 0))
     elif op == "heap":
         heap_case(ctx, inp["script"], reqs, todo)
+    elif op == "session":
+        sessions(ctx, [(inp["mode"], inp["die"], inp["netlist"], inp["calls"], inp.get("as", "str"))])
 
 
 def replay(ctx: Ctx, body: dict) -> None:
